@@ -50,3 +50,11 @@ claim("C07",
       "grammar-directed PBT with a validity predicate: full-grammar random programs and the bundled examples under drawn option sets, output must be accepted by a strict BASIC09 parser (statements, block nesting, operands, literals, reserved words) and contain no internal object text",
       "Generated-input search over all statement kinds (every device-statement form and presence pattern) and option sets incl. dependencies; the oracle is a strict parser plus block-structure check, permissive about everything the property excludes (types, case, spacing).",
       PARSE_NOTE, "DESIGN.md section 6, C07")
+claim("C09",
+      "exhaustive enumeration + PBT with a validity predicate: one probe program per (name, kind) for all 962 names of <= 2 characters x 4 kinds, Hypothesis-drawn 3-4 character names in systematic families; emitted identifiers located through source line labels in the parsed output; global injectivity / collision check over all facts of the run",
+      "The <= 2-character name space is enumerated completely on every run; longer names are searched. Decides position-independence of the emitted identifier, 'same identifier iff same first two characters, suffix and kind', and absence of collisions with identifiers the tool generates (computed per output, not from today's spelling).",
+      PARSE_NOTE, "DESIGN.md section 6, C09")
+claim("C10",
+      "PBT with a validity predicate over parsed declarations: Hypothesis-generated programs placing variables in every position class x default string size x per-name size maps x initialize_vars; expected declarations derived from the generated model, identifiers learnt by probing the tool",
+      "Generated-input search; decides exactly-once declaration before first use, bound+1 / 11 elements per dimension, no duplicate identifier, and explicit STRING[n] sizes (configured or default) for every string scalar, array and temporary; StringConfigs validation is checked on a table of valid and invalid maps.",
+      PARSE_NOTE, "DESIGN.md section 6, C10")
